@@ -31,7 +31,7 @@ def run(ctx):
                          "-seed", ctx.seed, "-hist", ctx.q(200, 4000), "-nconc", ctx.q(60, 1500),
                          "-nwide", ctx.q(40, 800), "-maxops", ctx.q(80, 200),
                          "-nrace", ctx.q(100000, 1500000), "-nracekeep", ctx.q(3600, 60000), "-nbulk", ctx.q(150, 3000),
-                         "-long", ctx.path("long.ndjson"), "-longchurn", 65540, "-longtouch", ctx.q(700, 65540),
+                         "-long", ctx.path("long.ndjson"), "-longchurn", ctx.q(65540, 131080), "-longtouch", ctx.q(65540, 131080),
                          "-nshape", ctx.q(100, -1)],
                 traces=[ctx.path("seq.ndjson"), ctx.path("conc.ndjson"), ctx.path("long.ndjson")])
     # 4. validate what the real code did
@@ -39,7 +39,7 @@ def run(ctx):
     conc = ctx.load_traces(ctx.path("conc.ndjson"))
     rj = ctx.validate(fam, "LRU_Trace", "LRU_Trace.cfg", seq, label="sequential", chunk=20000)
     rj += ctx.validate(fam, "LRU_Trace", "LRU_Trace.cfg", conc, label="concurrent", chunk=6000)
-    # long runs (run-length encoded events, one call per TLC step): without TypeOK, whose duplicate-freedom
+    # long runs (run-length encoded events): without TypeOK, whose duplicate-freedom
     # clause is quadratic in the number of entries - it is a property of the specification's own states and
     # is checked on all other traces and exhaustively above
     long = ctx.load_traces(ctx.path("long.ndjson"))
